@@ -45,6 +45,7 @@ class ExcLattice:
         for k, v in _LIB.items():
             self.parent.setdefault(k, v)
         self.repo_classes: dict[str, str] = {}
+        self.other: set[str] = set()  # package classes that are NOT exceptions (e.g. RemoteException)
         if repo is not None:
             # iterate to a fixpoint so that subclasses of package exception classes are found
             changed = True
@@ -64,12 +65,20 @@ class ExcLattice:
                             self.repo_classes[c.name] = bn
                             changed = True
                             break
+            self.finish(repo)
+
+    def finish(self, repo):
+        for c in repo.all_classes():
+            if c.name not in self.parent:
+                self.other.add(c.name)
 
     def known(self, name) -> bool:
         return name in self.parent
 
     def is_sub(self, a: str, b: str) -> bool:
         """a is b or a subclass of b.  Unknown names are treated as direct subclasses of Exception."""
+        if a in self.other or b in self.other:
+            return a == b
         seen = set()
         cur = a
         while cur is not None and cur not in seen:
